@@ -10,7 +10,11 @@ package c19
 //   - no ECS option is ever returned to a client;
 //   - an answer whose authority scope was non-zero is served from cache only
 //     to clients that sent ECS and lie inside min(scope, forwarded, floor);
-//   - scoped hits respect the scoped TTL cap.
+//   - scoped hits respect the scoped TTL cap;
+//   - the authority may echo ANOTHER subnet than the one it was sent (step.echo = client whose subnet it names):
+//     an answer whose authority scope was non-zero is then served neither to the client that asked (it lies outside
+//     the scope the authority declared) nor, later, from cache to the clients of the named subnet (the answer was
+//     obtained for the asker's subnet).  RFC 7871 7.3 has such a reply dropped.
 
 import (
 	"context"
@@ -29,7 +33,10 @@ type stepT struct {
 	C      int  `json:"c"`
 	Sent   int  `json:"sent"`
 	Scope  int  `json:"scope"`
+	Echo   int  `json:"echo"` // 0 = the authority echoes what it was sent; k = it echoes client k's subnet
 	ExpHit bool `json:"expHit"`
+	// ExpKind: the model's outcome ("hit" | "miss" | "dropped"), compared for drift only
+	ExpKind string `json:"expKind"`
 }
 
 type behT struct {
@@ -47,6 +54,7 @@ type inputT struct {
 type genT struct {
 	fwd   *net.IPNet // what the upstream query carried (nil = no ECS)
 	scope int
+	echo  net.IP // the address the authority's option named (nil = none sent back)
 }
 
 const ttlCap = 30
@@ -60,6 +68,7 @@ func TestEcsReplay(t *testing.T) {
 	defer res.Write(t)
 
 	curScope := 0
+	var curEcho net.IP // non-nil: the authority names this address instead of the one it was sent
 	var gens []genT
 	tail := &pipe.Tail{}
 	tail.Respond = func(_ context.Context, _ *middleware.Chain, req *dns.Msg) *dns.Msg {
@@ -81,8 +90,13 @@ func TestEcsReplay(t *testing.T) {
 						o.Option = append(o.Option, &dns.EDNS0_COOKIE{Code: dns.EDNS0COOKIE, Cookie: "00112233445566778899aabbccddeeff"},
 							&dns.EDNS0_EDE{InfoCode: dns.ExtendedErrorCodeOther, ExtraText: "x"})
 					}
+					echoed := s.Address
+					if curEcho != nil {
+						echoed = mask(curEcho, int(s.SourceNetmask))
+					}
+					g.echo = echoed.To4()
 					o.Option = append(o.Option, &dns.EDNS0_SUBNET{Code: dns.EDNS0SUBNET, Family: 1,
-						SourceNetmask: s.SourceNetmask, SourceScope: uint8(curScope), Address: s.Address})
+						SourceNetmask: s.SourceNetmask, SourceScope: uint8(curScope), Address: echoed})
 				}
 			}
 		}
@@ -122,7 +136,13 @@ func TestEcsReplay(t *testing.T) {
 				o.Option = append(o.Option, &dns.EDNS0_SUBNET{Code: dns.EDNS0SUBNET, Family: 1, SourceNetmask: uint8(st.Sent), Address: ip},
 					&dns.EDNS0_PADDING{Padding: make([]byte, 3)}, &dns.EDNS0_COOKIE{Code: dns.EDNS0COOKIE, Cookie: "0011223344556677"})
 			}
-			hist = append(hist, fmt.Sprintf("Query(c%d %s sent=/%d scope=/%d)", st.C, in.Addrs[st.C-1], st.Sent, st.Scope))
+			h := fmt.Sprintf("Query(c%d %s sent=/%d scope=/%d)", st.C, in.Addrs[st.C-1], st.Sent, st.Scope)
+			curEcho = nil
+			if st.Echo > 0 {
+				curEcho = net.ParseIP(in.Addrs[st.Echo-1]).To4()
+				h = fmt.Sprintf("Query(c%d %s sent=/%d scope=/%d echo=c%d %s)", st.C, in.Addrs[st.C-1], st.Sent, st.Scope, st.Echo, in.Addrs[st.Echo-1])
+			}
+			hist = append(hist, h)
 			curScope = st.Scope
 			before := len(gens)
 			tail.Reset()
@@ -130,7 +150,8 @@ func TestEcsReplay(t *testing.T) {
 			res.Case(fmt.Sprintf("%v", hist))
 			violate := func(clause, what string) {
 				res.Violate("c19/"+clause+"/"+fmt.Sprint(in.Enabled, in.Floor, hist), fmt.Sprintf("[ecs enabled=%v fwd=/%d floor=/%d] %v: %s", in.Enabled, in.FwdMax, in.Floor, hist, what),
-					map[string]any{"driver": "ecs", "enabled": in.Enabled, "floor": in.Floor, "history": hist})
+					map[string]any{"driver": "ecs", "enabled": in.Enabled, "floor": in.Floor, "fwdMax": in.FwdMax, "addrs": in.Addrs,
+						"history": hist, "steps": b.Steps[:si+1]})
 			}
 			if r == nil {
 				res.Count("no_reply", 1)
@@ -172,6 +193,26 @@ func TestEcsReplay(t *testing.T) {
 				}
 				if in.Enabled && st.Sent > 0 && g.fwd == nil {
 					res.DriftNote("enabled and client sent ECS, nothing forwarded: %v", hist)
+				}
+				// the exchange itself: was the asker served an answer whose declared scope it lies outside of?
+				if g.fwd != nil && g.echo != nil && g.scope != 0 {
+					fb, _ := g.fwd.Mask.Size()
+					b := min(g.scope, fb)
+					if !mask(g.echo, b).Equal(mask(g.fwd.IP, b)) {
+						res.Count("echo_mismatch_scoped_exchanges", 1)
+						served := r.Rcode == dns.RcodeSuccess && len(r.Answer) > 0
+						if served {
+							violate("declared-scope", fmt.Sprintf("the authority was sent %s and declared its answer valid for %s/%d (scope /%d): the answer was served to %s, a client outside that scope (RFC 7871 7.3: such a reply MUST be dropped)",
+								g.fwd.String(), g.echo, fb, g.scope, ip))
+						} else {
+							res.Count("echo_mismatch_not_served", 1)
+						}
+						if st.ExpKind != "" && (st.ExpKind == "dropped") == served {
+							res.DriftNote("model %s, code served=%v (rcode %d) for a mismatching echo at step %d of %v", st.ExpKind, served, r.Rcode, si, hist)
+						}
+					}
+				} else if g.fwd != nil && g.echo != nil && !g.echo.Equal(g.fwd.IP.To4()) {
+					res.Count("echo_mismatch_scope0_exchanges", 1) // scope 0: outside the statement's clause (RFC: dropped all the same)
 				}
 			} else {
 				// served from cache: which exchange produced it?
